@@ -13,9 +13,9 @@ from ..templates import S, P
 
 LEVEL = "exploration"
 RULE = (
-    "(a) catalogue of ~190 one/two/three-operator templates over all operator families (elementwise, reductions, groupby aggregate/apply/transform/cumulative, joins of every kind and key "
+    "(a) catalogue of ~390 one/two/three-operator templates over all operator families (elementwise incl. method operators / ufuncs / query / eval / row-wise reductions, reductions, groupby aggregate/apply/transform/cumulative/median/cov/pivot_table also by the index name, joins of every kind and key "
     "placement, concat, sort_values/set_index, cumulative, shift/diff/fill/rolling windows, mis-aligned binary ops, drop_duplicates/unique/value_counts, nlargest/nsmallest, loc, head) x the "
-    "8-row adversarial table cut in ALL 2^7 ways (unknown divisions), all cuts with known divisions, cuts with an empty partition inserted, and for two-input templates all cuts of A x 3 cuts of B "
+    "8-row adversarial table cut in ALL 2^7 ways (unknown divisions; the quick tier takes every third cut plus a 1/9 sample of the others), all cuts with known divisions, cuts with an empty partition inserted, and for two-input templates all cuts of A x 3 cuts of B "
     "plus 8 cuts of A x all 16 cuts of the 5-row table B; (b) Hypothesis-generated multi-step programs with an independent random layout per input. Oracle: the same operation sequence applied by "
     "pandas to the concatenated input (row order / index compared only where the query defines them; dtype kinds). Explicit documented refusals are counted, not violations. "
     "non-trivial = >= 2 non-empty partitions and the template is not partition-local; distinct by (template, cuts)"
@@ -192,7 +192,7 @@ def systematic(tier):
         for ci, cuts in enumerate(cutsA):
             if tier == "quick" and t["fam"] == "local" and ci % 8:
                 continue
-            if tier == "quick" and ci % 2 and (zlib.crc32(f"{ti}".encode()) + ci) % 9:
+            if tier == "quick" and ci % 3 and (zlib.crc32(f"{ti}".encode()) + ci) % 9:
                 continue
             cb = cutsB[(ci * 5 + ti) % len(cutsB)]
             cases.append({"t": ti, "cuts": cuts, "known": False, "cuts_b": cb})
@@ -305,5 +305,5 @@ def shrink_candidates(case):
 
 
 def coverage_extra(tier, agg):
-    return {"exhaustive_cuts_of_table_A": True, "templates": len(cat()), "refused": agg["counters"].get("refused", 0), "errored": agg["counters"].get("errored", 0),
+    return {"exhaustive_cuts_of_table_A": tier == "thorough", "templates": len(cat()), "refused": agg["counters"].get("refused", 0), "errored": agg["counters"].get("errored", 0),
             "discarded_ill_typed": agg["counters"].get("discarded_ill_typed", 0)}
